@@ -654,4 +654,56 @@ theorem Mgr.save_result (m : Mgr) (s : Snapshot) (hw : WfSnapshot s) :
     | some l => exact ⟨l, rfl, rfl, by simpa [hl] using h⟩
   · simp [h, hb]
 
+/-! ## the association-list model is a legitimate `IndexMap`: `insert` keeps keys distinct -/
+
+theorem RFields.hasKey_insert (k : Bytes) (v : RValue) (j : Bytes) :
+    ∀ fs : RFields, (fs.insert k v).hasKey j = (fs.hasKey j || k == j)
+  | .nil => by simp [RFields.insert, RFields.hasKey]
+  | .cons n w t => by
+    by_cases h : (n == k) = true
+    · have hnk : n = k := by simpa using h
+      subst hnk
+      simp [RFields.insert, RFields.hasKey]
+      exact fun h => .inl h
+    · simp only [RFields.insert, h]
+      simp [RFields.hasKey, RFields.hasKey_insert k v j t, Bool.or_assoc]
+
+theorem RFields.insert_keysNodup (k : Bytes) (v : RValue) :
+    ∀ fs : RFields, fs.keysNodup = true → (fs.insert k v).keysNodup = true
+  | .nil, _ => by simp [RFields.insert, RFields.keysNodup, RFields.hasKey]
+  | .cons n w t, h => by
+    simp only [RFields.keysNodup, Bool.and_eq_true, Bool.not_eq_true'] at h
+    by_cases hnk : (n == k) = true
+    · simp [RFields.insert, hnk, RFields.keysNodup, h.1, h.2]
+    · have hnk' : (n == k) = false := by simpa using hnk
+      simp only [RFields.insert, hnk', Bool.false_eq_true, if_false]
+      simp only [RFields.keysNodup, Bool.and_eq_true, Bool.not_eq_true',
+        RFields.hasKey_insert, Bool.or_eq_false_iff]
+      refine ⟨⟨h.1, ?_⟩, RFields.insert_keysNodup k v t h.2⟩
+      cases hkn : (k == n) with
+      | false => rfl
+      | true =>
+        have : k = n := by simpa using hkn
+        exact absurd (by simp [this]) hnk
+
+theorem decodeFields_keysNodup {f : Bytes → W RValue} :
+    ∀ (n : Nat) (acc : RFields) (bs : Bytes) (fs : RFields) (r : Bytes),
+      acc.keysNodup = true → (decodeFields f n acc bs).out = .ok (fs, r) → fs.keysNodup = true
+  | 0, acc, bs, fs, r, ha, h => by
+    simp only [decodeFields, W.pure_out, Except.ok.injEq, Prod.mk.injEq] at h
+    rw [← h.1]; exact ha
+  | n + 1, acc, bs, fs, r, ha, h => by
+    simp only [decodeFields] at h
+    cases h1 : (readString bs).out with
+    | error e => rw [W.bind_out_error h1] at h; cases h
+    | ok p =>
+      obtain ⟨name, r1⟩ := p
+      rw [W.bind_out_ok h1] at h
+      cases h2 : (f r1).out with
+      | error e => rw [W.bind_out_error h2] at h; cases h
+      | ok q =>
+        obtain ⟨v, r2⟩ := q
+        rw [W.bind_out_ok h2] at h
+        exact decodeFields_keysNodup n _ r2 fs r (RFields.insert_keysNodup name v acc ha) h
+
 end TrustVerif.C10
